@@ -231,6 +231,105 @@ def observe(ctx, r, v, ref, hist, opname):
             return bad('append on a copy visible in the original', 'copy')
 
 
+# ---------------------------------------------------------------- numeric aliases: the canonicalisation itself
+
+def pk(o):
+    """protocol form of a Python object (kinds kept apart, unlike `lab`)"""
+    if isinstance(o, bool):
+        return f'B:{int(o)}'
+    if isinstance(o, int):
+        return f'I:{o}'
+    if isinstance(o, float):
+        return f'F:{int(o)}'
+    if isinstance(o, np.integer):
+        return f'NI:{int(o)}'
+    if isinstance(o, np.floating):
+        return f'NF:{int(o)}'
+    if isinstance(o, str):
+        return 's:' + o.encode().hex()
+    if isinstance(o, tuple):
+        return 'T:[' + '+'.join(pk(x) for x in o) + ']'
+    raise TypeError(o)
+
+
+def canon_py(o):
+    """reference canonicalisation, written independently of the model: integral numbers -> int, tuples element-wise"""
+    if isinstance(o, tuple):
+        return ('t',) + tuple(canon_py(x) for x in o)
+    if isinstance(o, str):
+        return ('s', o)
+    return ('i', int(o))
+
+
+def alias_table():
+    t = []
+    for z in range(-2, 4):
+        t += [z, float(z), np.int8(z), np.int16(z), np.int32(z), np.int64(z), np.float16(z), np.float32(z), np.float64(z)]
+        if z >= 0:
+            t += [np.uint8(z), np.uint16(z), np.uint32(z), np.uint64(z)]
+        if z in (0, 1):
+            t.append(bool(z))
+    t.append(-0.0)
+    t += ['', 'a', '1', '0', (), (1,), (1.0,), (True,), (0,), ('a',), (True, 'a'), (1, 'a'), ((1,), 2.0), ((True,), 2), ((), ()), (1, 2), (1.0, 2.0, 'a')]
+    return t
+
+
+def is_np(o):
+    return isinstance(o, np.generic)
+
+
+def alias_cases(ctx, r, lines, expect, speclines, meta):
+    """(a) Python key equality (what a dict lookup does: `b in {a: 0}`) against the model's `pyEq` and against equality of
+    the model's canonical labels, exhaustively over all pairs of the alias table; (b) `Variables(objs).count/index(q)` against
+    the object-level model `KState` and against the list of canonical objects."""
+    T = alias_table()
+
+    def emit(line, exp, what):
+        lines.append(line); expect.append(exp); speclines.append(None); meta.append((what, (line,)))
+
+    for a in T:
+        emit(f'canon {pk(a)}', f'ok {lab(a)}', 'alias:canon')
+    npairs = 0
+    for a in T:
+        for b in T:
+            if (is_np(a) and isinstance(b, tuple)) or (is_np(b) and isinstance(a, tuple)):
+                continue   # NumPy scalar == tuple is NumPy broadcasting, not key equality (DESIGN D23)
+            same = b in {a: 0}
+            if same != (canon_py(a) == canon_py(b)):
+                ctx.fail('property', 'Variables.aliases', 'key equality', f'{a!r} and {b!r}: dict says {"same" if same else "different"} key, canonical forms say otherwise',
+                         repro=f'import numpy as np\nfrom numpy import *\nassert False, "alias table: {pk(a)} vs {pk(b)}"')
+                return
+            emit(f'pyeq {pk(a)} {pk(b)}', f'ok {int(same)}', 'alias:pyeq')
+            npairs += 1
+    ctx.tick('alias pairs', npairs)
+    store = [o for o in T if not is_np(o)]
+    cases = [([o], q) for o in store for q in T]
+    for _ in range(ctx.scale(400, 4000)):
+        cases.append(([r.choice(store) for _ in range(r.randint(2, 5))], r.choice(T)))
+    for objs, q in cases:
+        v = Variables(objs)
+        ref = []
+        for o in objs:
+            if canon_py(o) not in ref:
+                ref.append(canon_py(o))
+        want = canon_py(q) in ref
+        try:
+            c = v.count(q); inn = q in v
+            idx = v.index(q) if c else '-'
+        except Exception as e:  # noqa
+            ctx.fail('property', 'Variables.aliases', 'count/index raised', f'Variables({objs!r}): count/index({q!r}) raised {type(e).__name__}: {e}',
+                     repro=f'import numpy as np\nfrom numpy import *\nfrom dimod.variables import Variables\nv = Variables({objs!r}); v.count({q!r}); ({q!r} in v) and v.index({q!r})')
+            return
+        ctx.case(('alias', pk(q), tuple(pk(o) for o in objs)), nontrivial=bool(c))
+        if bool(c) != want or inn != want or c not in (0, 1) or (want and idx != ref.index(canon_py(q))) or [canon_py(x) for x in v] != ref:
+            ctx.fail('property', 'Variables.aliases', 'count/index of an alias', f'Variables({objs!r}): count({q!r})={c}, index={idx}, list(v)={list(v)!r}; the list of labels says present={want}',
+                     repro=f'import numpy as np\nfrom numpy import *\nfrom dimod.variables import Variables\nv = Variables({objs!r})\nassert bool(v.count({q!r})) == {want} and (({q!r} in v) == {want})'
+                           + (f' and v.index({q!r}) == {ref.index(canon_py(q))}' if want else ''))
+            return
+        emit(f"kcount {','.join(pk(o) for o in objs)} {pk(q)}", f'ok {int(c)} {idx} {state(v)}', 'alias:kcount')
+    ctx.tick('alias count/index', len(cases))
+
+
 def repro(hist):
     lines = ['from dimod.variables import Variables', 'import numpy as np, pickle', 'from numpy import int64, float32, float64', 'v = Variables()',
              'def _cls(f):\n    try:\n        f()\n    except Exception as e:\n        return type(e).__name__\n    return None']
@@ -436,6 +535,7 @@ def run(ctx):
             break
     if not ctx.quick:
         sweep(ctx, lines, expect, speclines, meta)
+    alias_cases(ctx, r, lines, expect, speclines, meta)
     got = run_driver('varsdriver', lines)
     ctx.corr_lines += len(lines)
     for i, ln in enumerate(lines):
